@@ -19,8 +19,13 @@ RULE = ("streams: wrapper = random small libraries (str / int / list / list-of-N
         "scope / type oracle only; roundtrip (TEST, not proof) = texts over ASCII letters, digits, accented Latin letters "
         "(U+00C0-U+017F minus single characters that pristine pylatexenc itself does not round-trip, computed at run time), "
         "punctuation, TeX specials, URLs, $...$ spans, without -- `` '' !` ?` ^ and the double quote, placed in a field, a NameParts "
-        "part and an @string, encoded (default / keep_math x enclose_urls options) then decoded. distinct = distinct (stream, "
-        "input); non-trivial = some visited text is changed by the converter or fails")
+        "part and an @string, encoded (default / keep_math x enclose_urls options) then decoded; letter sweep (TEST) = EVERY "
+        "letter of U+00C0-U+024F, U+1E00-U+1EFF (incl. the Vietnamese letters with two diacritics), Greek U+0370-U+03FF and "
+        "Cyrillic U+0400-U+04FF, minus exactly the single characters that pristine pylatexenc (called directly) does not "
+        "round-trip (computed at run time), packed many per value in order and shuffled, bare / between ASCII letters / as "
+        "space-separated words, under all five option combinations, placed in a field value, as NameParts words and in an "
+        "@string value; plus random texts as above drawing their accented letters from that whole alphabet. distinct = "
+        "distinct (stream, input); non-trivial = some visited text is changed by the converter or fails")
 TRUSTED = ["pylatexenc (encoder tables, LaTeX parser) is NOT modelled: the round-trip clause of C18 is validated by testing only "
            "(stream roundtrip) - the proof-level claim is PARTIAL: scope, types, error containment and the conditional round trip "
            "(C18_roundtrip_conditional: IF dec (enc s) = s on the alphabet THEN the two middlewares compose to the identity)",
@@ -119,18 +124,22 @@ def gen_wrap_meta(rng, spec):
 # ---------------------------------------------------------------- generation: round-trip texts
 ASCII_LETTERS = "abcdefghijklmnopqrstuvwxyzABCDEFGHIJKLMNOPQRSTUVWXYZ"
 ACCENTED = [chr(c) for c in range(0xC0, 0x180) if chr(c).isalpha()]
+# the letter sweep: every letter of the Latin blocks (Latin-1 Supplement, Extended-A, Extended-B, Extended Additional incl.
+# Vietnamese), basic Greek and Cyrillic
+SWEEP_RANGES = [(0xC0, 0x250), (0x1E00, 0x1F00), (0x370, 0x400), (0x400, 0x500)]
+SWEEP = [chr(c) for a, b in SWEEP_RANGES for c in range(a, b) if chr(c).isalpha()]
 PUNCT = list(",;:.!?()[]/*+=<>|@-'")
 SPECIALS = list("&%#_{}~\\$")
 FORBIDDEN = ["--", "``", "''", "!`", "?`", "^", '"']
 URL_RE = [re.compile(r"(https?://\S*\.\S*)"), re.compile(r"(www.\S*\.\S*)")]
 
 
-def gen_text(rng):
+def gen_text(rng, accented=ACCENTED):
     segs = []
     for _ in range(rng.choice([1, 2, 3, 4, 6])):
         r = rng.random()
         if r < 0.4:
-            pool = ASCII_LETTERS if rng.random() < 0.5 else ACCENTED
+            pool = ASCII_LETTERS if rng.random() < 0.5 else accented
             segs.append("".join(rng.choice(pool if rng.random() < 0.6 else ASCII_LETTERS) for _ in range(rng.randint(1, 6))))
         elif r < 0.5:
             segs.append(str(rng.randint(0, 2050)))
@@ -157,6 +166,34 @@ def allowed_text(s):
 ENC_OPTS = [[None, None], [True, True], [True, False], [False, True], [False, False]]
 
 
+def sweep_texts(rng, quick):
+    """(text, all options?) covering EVERY letter of SWEEP at least once per option combination: packed many per value (the
+    cost stays low), in code point order and shuffled (other neighbours), bare, between ASCII letters and as words"""
+    out = []
+    for p in range(2 if quick else 12):
+        ls = list(SWEEP)
+        if p:
+            rng.shuffle(ls)
+        per = 24 if quick or p < 2 else rng.choice([1, 2, 6, 12, 24])
+        for n, i in enumerate(range(0, len(ls), per)):
+            chunk = ls[i:i + per]
+            style = (n + p) % 4 if p < 2 else rng.randrange(6)
+            if style == 0:      # words of three letters
+                text = " ".join("".join(chunk[j:j + 3]) for j in range(0, len(chunk), 3))
+            elif style == 1:    # every letter inside an ASCII word (a following letter must not be eaten by a macro name)
+                text = " ".join("x" + c + "y" for c in chunk)
+            elif style == 2:    # one long word
+                text = "".join(chunk)
+            elif style == 3:    # one-letter words and word-initial letters
+                text = " ".join(c + ("" if j % 2 else "b") for j, c in enumerate(chunk))
+            elif style == 4:    # next to digits and punctuation
+                text = "".join(c + rng.choice(["1", ", ", ".", ": ", "-", "/", "(", ")", " "]) for c in chunk)
+            else:               # next to TeX specials
+                text = "".join(c + rng.choice(["&", "%", "#", "_", "{", "}", "~", " ", "\\"]) for c in chunk)
+            out.append((text, p == 0))
+    return out
+
+
 def generate(rng, tier):
     quick = tier == "quick"
     cases = []
@@ -179,6 +216,17 @@ def generate(rng, tier):
             texts.append(t)
     for i, t in enumerate(texts):
         cases.append({"stream": "roundtrip", "input": {"kind": "roundtrip", "text": t, "opts": ENC_OPTS[i % len(ENC_OPTS)] if i >= len(fixed) else [None, None]}})
+    # letter sweep: "drop" = the single characters pristine pylatexenc does not round-trip are removed from the text at run time
+    for i, (t, every_opt) in enumerate(sweep_texts(rng, quick)):
+        for o in (ENC_OPTS if every_opt else [ENC_OPTS[i % len(ENC_OPTS)]]):
+            cases.append({"stream": "roundtrip", "input": {"kind": "roundtrip", "text": t, "opts": o, "drop": True, "words": True}})
+    n_wide = 150 if quick else 6000
+    while n_wide:
+        t = gen_text(rng, SWEEP)
+        if allowed_text(t):
+            n_wide -= 1
+            cases.append({"stream": "roundtrip", "input": {"kind": "roundtrip", "text": t, "opts": ENC_OPTS[n_wide % len(ENC_OPTS)], "drop": True,
+                                                           "words": n_wide % 2 == 0}})
     return cases
 
 
@@ -553,13 +601,14 @@ _THIRD_PARTY_BAD = None
 
 
 def third_party_not_injective():
-    """single characters of the accented range that pristine pylatexenc (no repository code) does not round-trip"""
+    """single characters of the accented range and of the letter sweep that pristine pylatexenc (called directly, no
+    repository code) does not round-trip"""
     global _THIRD_PARTY_BAD
     if _THIRD_PARTY_BAD is None:
         from pylatexenc.latexencode import UnicodeToLatexEncoder
         from pylatexenc.latex2text import LatexNodes2Text
         e, d = UnicodeToLatexEncoder(), LatexNodes2Text()
-        _THIRD_PARTY_BAD = set(c for c in ACCENTED if d.latex_to_text(e.unicode_to_latex(c)) != c)
+        _THIRD_PARTY_BAD = set(c for c in sorted(set(ACCENTED) | set(SWEEP)) if d.latex_to_text(e.unicode_to_latex(c)) != c)
     return _THIRD_PARTY_BAD
 
 
@@ -585,7 +634,12 @@ def impl_roundtrip(case):
     km, eu = inp["opts"]
     rec = {"sx_in": None, "sx_out": None, "key": json.dumps(["roundtrip", text, inp["opts"]]), "nontrivial": True}
     bad = third_party_not_injective()
-    if any(c in bad for c in text):
+    if inp.get("drop"):
+        # letter sweep: exactly the excluded single characters are taken out, every other letter of the value is checked
+        text = "".join(c for c in text if c not in bad)
+    words = [w for w in text.split(" ") if w] if inp.get("words") else []
+    first = words or [text]
+    if any(c in bad for c in text) or not allowed_text(text):
         rec["oracle"] = {"ok": True, "detail": ""}
         rec["tags"] = ["roundtrip:excluded-third-party-noninjective"]
         rec["nontrivial"] = False
@@ -593,7 +647,7 @@ def impl_roundtrip(case):
         return rec
 
     def run():
-        lib = Library([Entry("article", "k", [Field("title", text, 1), Field("author", NameParts(first=[text], last=["x", text]), 2),
+        lib = Library([Entry("article", "k", [Field("title", text, 1), Field("author", NameParts(first=list(first), last=["x", text]), 2),
                                                 Field("year", 1990, 3)], 0, "@raw"), String("s", text, 5, "@string")])
         lib = LatexEncodingMiddleware(keep_math=km, enclose_urls=eu).transform(lib)
         mid = [type(b).__name__ for b in lib.blocks], lib.blocks[0].fields[0].value if hasattr(lib.blocks[0], "fields") else None
@@ -612,9 +666,15 @@ def impl_roundtrip(case):
     else:
         e, s = lib.blocks
         got = [e.fields[0].value, e.fields[1].value.first, e.fields[1].value.last, e.fields[2].value, s.value]
-        want = [text, [text], ["x", text], 1990, text]
+        want = [text, first, ["x", text], 1990, text]
         if got != want:
             ok, detail = False, "decode(encode(%r)) with keep_math=%r enclose_urls=%r gave %r (encoded: %r)" % (text, km, eu, got[0], mid[1])
+            if got[0] == text:
+                detail = "field value %r survives decode(encode(.)) with keep_math=%r enclose_urls=%r, but [NameParts first, last, year, " \
+                         "@string value] = %r, expected %r" % (text, km, eu, got[1:], want[1:])
+            lost = sorted(set(c for c in text if ord(c) > 127 and not any(c in str(g) for g in got)))
+            if lost:
+                detail += "; letters lost: %s" % ", ".join("%r (U+%04X)" % (c, ord(c)) for c in lost[:12])
     rec["oracle"] = {"ok": ok, "detail": detail}
     if not ok:
         known = rt_known_class(text, km is not False, eu is not False)
@@ -622,6 +682,6 @@ def impl_roundtrip(case):
             rec["oracle"]["known"] = known
         rec["tags"] = ["roundtrip-fail:" + (known or "UNKNOWN")]
     else:
-        rec["tags"] = ["roundtrip:ok"]
+        rec["tags"] = ["roundtrip:ok"] + (["roundtrip:letter-sweep"] if inp.get("drop") else [])
     rec["summary"] = repr(mid[1])[:200]
     return rec
